@@ -138,7 +138,9 @@ def _gen_opt(rng, k):
     names = ["auto", "source", "destination"]
     pb = names[(k >> 2) % 3] if (k % 16) < 12 else rng.choice(INVALID_MODES)
     return {"call": "optimize_partition_by", "src": _gen_geom(rng, st), "dst": _gen_geom(rng, dt), "pb": pb,
-            "label": rng.choice([None, "step", ""])}
+            "label": rng.choice([None, "step", "", "50 % (v/v)", "{0} %s"]),
+            "names": rng.choice([["S", "D"], ["S", "D"], ["EtOH_70%", "plate {0}"], ["100%s", "%d wells"], ["Glucose 20% (w/v)", "D"],
+                                 ["{name}", "{}"], ["S", "MTP-96 %"]])}
 
 
 def _gen_insitu(rng):
@@ -159,7 +161,8 @@ def _gen_insitu(rng):
     form = rng.choice(["list", "array", "col2d"])
     return {"call": "transfer", "device": rng.choice(["evo", "fluent"]), "src": src, "dst": dst, "sw": sw, "dw": dw,
             "vol": vols, "pb": rng.choice(["auto", "auto", "source", "destination"]), "form": form,
-            "wash": rng.choice([1, 1, 2, "flush", "reuse"])}
+            "wash": rng.choice([1, 1, 2, "flush", "reuse"]),
+            "names": rng.choice([["src", "dst"], ["src", "dst"], ["src", "dst"], ["EtOH_70%", "MTP %d"], ["{0}", "dst %s"]])}
 
 
 def gen_case(rng, tier, index):
@@ -345,7 +348,10 @@ def judge_optimize(ctx, src_trough, dst_trough, pb, res, exc, where, info):
 def _run_opt(ctx, case):
     from robotools.worklists import utils
 
-    S, D = _build(case["src"], "S"), _build(case["dst"], "D")
+    nS, nD = case.get("names") or ("S", "D")  # labware names are free text
+    S, D = _build(case["src"], nS), _build(case["dst"], nD)
+    if (nS, nD) != ("S", "D"):
+        ctx.count("free_text_labware_names")
     try:
         res, exc = utils.optimize_partition_by(S, D, case["pb"], case.get("label")), None
     except Exception as e:
@@ -372,8 +378,9 @@ def _run_transfer(ctx, case):
     from ..world import build_worklist
 
     att = _setup()
-    src = _build(case["src"], "src", fill=5e8)
-    dst = _build(case["dst"], "dst", fill=5e8)
+    nS, nD = case.get("names") or ("src", "dst")
+    src = _build(case["src"], nS, fill=5e8)
+    dst = _build(case["dst"], nD, fill=5e8)
     wl = build_worklist({"max_volume": 950, "auto_split": True}, case["device"])
     for lg in att.spy_log.values():
         lg.clear()
